@@ -88,6 +88,8 @@ class Canon:
         rn = None
         if rows is not None:
             rn = "all" if is_all(rows) else {"self.kdof": "k", "self.rf": "rf", "self.rb": "rb"}.get(symname(rows))
+            if rn is None and self.mode == "U" and symname(rows) == "self.nonrf":
+                rn = "k"                 # _common_precalcs: kdof = nonrf (only get_su_eig, mode E, narrows kdof to the elastic set)
         if rn == "all" and self.mode == "U":
             # where there are no rf equations the non-rf set is everything; where there are only rf equations the rf set is
             if self.cfg.get("k", True) and not self.cfg.get("rf", True):
@@ -166,6 +168,9 @@ GENS = {
 }
 
 
+NOT_FOLLOWED = ("_delconj", "_addconj", "_calc_acce_kdof", "_init_dva_part", "_init_dva", "_alloc_dva", "generator", "tsolve", "fsolve", "finalize")
+
+
 def _inline(ctx, kind):
     cache = ctx.__dict__.setdefault("_c08_inline", {})
     if kind not in cache:
@@ -173,8 +178,7 @@ def _inline(ctx, kind):
             specs = [(SE2, "SolveExp2"), (BASE, "_BaseODE")]
         else:
             specs = [(UNC, "SolveUnc"), (BASE, "_BaseODE")]
-        cache[kind] = G.inline_table(ctx, specs, exclude=("_delconj", "_addconj", "_calc_acce_kdof", "_init_dva_part", "_init_dva", "_alloc_dva",
-                                                          "generator", "tsolve", "fsolve", "finalize"))
+        cache[kind] = G.inline_table(ctx, specs, exclude=NOT_FOLLOWED)
     return cache[kind]
 
 
@@ -221,6 +225,7 @@ def run_arm(ctx, kind, cfg, which, carry=None, generic=(), generic_prefix=None, 
         canon = Canon(fn, cfg, mode, which_)
         ev = GenEval(ctx, fn, env=env, facts=facts, inline=_inline(ctx, kind), refhook=canon, carry=carry_, sided=sided,
                      shapes=array_shapes(env, fn, mode), heap_carried=heap_carried)
+        ev.tracked, ev.opaque_ok = (lambda v: symname(v) in canon.root), frozenset(NOT_FOLLOWED)
         ev.run(fn.body)
         if facts.lost:
             raise Unsupported(f"{qual}: {facts.lost[0]}")
@@ -397,12 +402,22 @@ def r1_carried_state(ctx):
             seen.add(id(lp))
             first = id(lp) not in done_loops
             done_loops.add(id(lp))
-            want_cache = kind == "cdf" and cfg["k"]
-            ok = len(index) == 1 and set(roles) == set(index) | set(tags) | set(cache) and len(tags) == (1 if want_cache else 0) \
-                and len(cache) == (1 if want_cache else 0)
-            ctx.check(ok, f"{tag}: the only state that survives from one send to the next is the step index"
-                          + (" plus one cached force and the step it was computed for" if want_cache else ""), lp,
-                      {"carried": {k: sorted(v) for k, v in roles.items()}}, nontrivial=first)
+            # necessary: nothing an earlier send left behind enters the values of this send unless it is checked against the step it belongs
+            # to.  (A cache is optional - a generator that recomputes bo @ V[:, i-1] on every send is as good - and only the damping-as-force
+            # cache has a meaning this rule can validate.)
+            want_cache = kind == "cdf" and cfg["k"] and len(tags) == 1 and len(cache) == 1
+            mixed = set(roles) - set(index) - set(tags) - set(cache)
+            unchecked = sorted(c for c, r in roles.items() if "value" in r) if not tags else []
+            what = f"{tag}: the only state that survives from one send to the next is the step index" \
+                + (" plus one cached force and the step it was computed for" if want_cache else "")
+            detail = {"carried": {k: sorted(v) for k, v in roles.items()}}
+            if len(index) == 1 and not mixed and ((not tags and not cache) or want_cache):
+                ctx.ok(what, lp, detail, nontrivial=first)
+            elif unchecked:
+                ctx.fail(what, lp, dict(detail, enters_unchecked=unchecked,
+                                        consequence="after send(1..5) then send(3, f') a value computed for step 5 enters step 3"))
+            else:
+                ctx.error(f"{tag}: the state carried from one send to the next has a structure the rule cannot place", lp, detail)
             py = [a for a in arms if a.ev.prime_yields]
             my = [a for a in arms if a.ev.maybe_prime]
             if my and not py:
@@ -433,6 +448,12 @@ def r1_carried_state(ctx):
                       None if ok else {"positive": repr(pos.final(iv)), "add-on": repr(addon.final(iv))}, nontrivial=False)
             if want_cache and len(tags) == 1 and len(cache) == 1:
                 _cached_damping_force(ctx, tag, cfg, tags[0], cache[0], arms)
+            elif kind == "cdf" and cfg["k"] and not tags and not cache:
+                # nothing is cached: the obligations on the cache hold vacuously (recorded so that the instance count says what was looked at)
+                for wname, _c, _g in _worlds("-", "-")[1:]:
+                    ctx.ok(f"{tag} [{wname}]: no force is cached by an earlier send; the step is computed from column j-1", lp, nontrivial=False)
+                for what_ in ("initial cache", "tag set by a positive send", "tag kept by an add-on", "cache follows V[:, i] on add-ons"):
+                    ctx.ok(f"{tag}: no cached force ({what_}: void)", lp, nontrivial=False)
         nloops += len(seen)
         missing = [l for l in loops if id(l) not in seen]
         if missing:
@@ -580,6 +601,7 @@ def run_batch(ctx, kind, cfg):
         sh[c] = (k, k)
     shared = Shared(batch_namer)
     ev = BatchEval(ctx, fn, env=env, facts=facts, inline=_batch_inline(ctx, kind), refhook=BatchCanon(rootname, cfg, mode), shapes=sh, shared=shared)
+    ev.tracked, ev.opaque_ok = (lambda v: rootname(v) is not None), frozenset(NOT_FOLLOWED + ("_init_dv", "_set_initial_cond"))
     try:
         ev.run(fn.body)
         if facts.lost:
@@ -645,6 +667,35 @@ def _force_cell(arm):
     return None
 
 
+def _nothing_else(ctx, arm, allowed, what):
+    """every store of the iteration into one of the watched arrays (d, v, a, the force history) goes to column i of an expected partition.
+    Stores into other objects (scratch arrays of the body) are none of this rule's business; a store into a watched array the engine
+    cannot place is an analysis error, one it can place elsewhere a violation."""
+    other, unplaced = [], []
+    for c in arm.cells:
+        arr, rn, cn = c["key"]
+        if arr is None:
+            if c["root"] is None or arm.ev._is_view(c["root"]) or arm.ev.tracked(c["root"]):
+                unplaced.append(c["text"])
+            continue                         # not one of the watched arrays
+        if rn is None or cn is None:
+            # column or partition not recognised: provably another column when it differs from i by a constant
+            col = c["col"]
+            off = (col - J) if (_good(col) and arm.canon.which != "addon") else None
+            if off is not None and off.is_const() and not off.is_zero():
+                other.append(c["text"])
+            else:
+                unplaced.append(c["text"])
+        elif (arr, rn) not in allowed or cn != "cur":
+            other.append(c["text"])
+    if other:
+        ctx.fail(what, arm.loop, other)
+    elif unplaced:
+        ctx.error(what + ": a store the rule cannot place", arm.loop, unplaced)
+    else:
+        ctx.ok(what, arm.loop, nontrivial=False)
+
+
 def _rf_and_force(ctx, tag, arm, cfg):
     lp = arm.loop
     c = _force_cell(arm)
@@ -657,8 +708,7 @@ def _rf_and_force(ctx, tag, arm, cfg):
         ctx.check(ok, f"{tag}: residual-flexibility displacement of step i is the static solution K_rf^-1 F1[rf]", c["node"] if c else lp,
                   None if ok else (repr(c["value"]) if c else "no store"))
     allowed = {("d", "k"), ("v", "k"), ("d", "rf"), ("force", "all"), ("force", "k"), ("force", "rf"), ("d", "rb"), ("v", "rb"), ("a", "rb")}
-    other = [c["text"] for c in arm.cells if (c["key"][0], c["key"][1]) not in allowed or c["key"][2] != "cur"]
-    ctx.check(not other, f"{tag}: a positive send writes column i of the solution and of the force history and nothing else", lp, other, nontrivial=False)
+    _nothing_else(ctx, arm, allowed, f"{tag}: a positive send writes column i of the solution and of the force history and nothing else")
 
 
 STATE_SYMS = {"d0", "v0", "f0", "f0rb", "drb0", "vrb0"}
@@ -783,16 +833,24 @@ def r2_step_equals_batch(ctx):
         except Unsupported as e:
             ctx.error(f"{tag}: carried state", None, str(e))
             continue
-        if len(tags) != 1 or len(cache) != 1:
-            ctx.fail(f"{tag}: the positive send uses one cached force guarded by the step it belongs to", arms[0].loop,
+        if not tags and not cache:
+            plan = [("no cache", None)]                  # the force of step i-1 is recomputed on every send
+        elif len(tags) == 1 and len(cache) == 1:
+            worlds = _worlds(tags[0], cache[0])
+            plan = [("cache valid", worlds[0]), ("recompute", worlds[-1])]
+        elif cache and not tags:
+            ctx.fail(f"{tag}: a force cached by an earlier send is used only when it is checked against the step it belongs to", arms[0].loop,
                      {"carried": {k: sorted(v) for k, v in roles.items()}})
             continue
-        worlds = _worlds(tags[0], cache[0])
+        else:
+            ctx.error(f"{tag}: the state carried from one send to the next has a structure the rule cannot place", arms[0].loop,
+                      {"carried": {k: sorted(v) for k, v in roles.items()}})
+            continue
         evp = None
         # lemma (i): the cached force, when valid, equals bo @ V[:, i-1]; evaluate both arms of the guard
-        for arm_name, (wn, carry, generic) in (("cache valid", worlds[0]), ("recompute", worlds[-1])):
+        for arm_name, world in plan:
             try:
-                w = run_arm(ctx, "cdf", cfg, "pos", carry=carry, generic=generic)
+                w = arms[0] if world is None else run_arm(ctx, "cdf", cfg, "pos", carry=world[1], generic=world[2])
             except Unsupported as e:
                 ctx.error(f"{tag} [{arm_name}]: positive send", arms[0].loop, str(e))
                 continue
@@ -802,6 +860,8 @@ def r2_step_equals_batch(ctx):
             ctx.check(ok, f"{tag} [{arm_name}]: a positive send stores the batch step of the damping-as-force recurrence",
                       (w.cell("d", "k") or {}).get("node") or w.loop,
                       None if ok else {"generator d": repr(d1), "batch d": repr(b[0]), "generator v": repr(v1), "batch v": repr(b[1])})
+            if world is None:
+                continue
             dn = _u(w.final(cache[0]), cfg)
             ok = _eq(dn, b[2])
             ctx.check(ok, f"{tag} [{arm_name}]: the damping force cached for the next step equals the batch loop's carried value", w.loop,
@@ -912,8 +972,7 @@ def r3_addon_linear_part(ctx):
                 ctx.check(ok, f"{tag}: the add-on rf displacement increment is K_rf^-1 F1[rf]", c["node"] if c else lp,
                           None if ok else (repr(c["value"]) if c else "no store"))
             allowed = {("d", "k"), ("v", "k"), ("d", "rf"), ("force", "all"), ("force", "k"), ("force", "rf")}
-            other = [c["text"] for c in add.cells if (c["key"][0], c["key"][1]) not in allowed or c["key"][2] != "cur"]
-            ctx.check(not other, f"{tag}: an add-on touches nothing else", lp, other, nontrivial=False)
+            _nothing_else(ctx, add, allowed, f"{tag}: an add-on touches nothing else")
             ivs = sorted(add.canon.index_vars)
             ctx.check(len(ivs) == 1, f"{tag}: every add-on store addresses the column of the step solved last", lp, ivs, nontrivial=False)
             if cache is not None and cfg["order"] == 1:
@@ -1242,8 +1301,14 @@ def r5_typestate(ctx):
             items = [_item_of(v) for v in st]
             seqv = items[0][0] if items[0] else None
             sc = sem.split_call(seqv) if seqv is not None else None
-            ok = all(items) and [it[1] for it in items] == [0, 1, 2, 3] and all(it[0].equals(seqv) for it in items) and sc is not None \
-                and sc[0] == "self._init_dva_part"
+            if not all(items) or sc is None or sc[0] != "self._init_dva_part" or not all(it[0].equals(seqv) for it in items):
+                # not four items of one _init_dva_part(...) call: a publication the rule cannot follow (unless something is provably missing)
+                if any(v is None for v in st):
+                    ctx.fail(f"{tag}: _d, _v, _a, _force are published before the body is started", fn, {a: repr(v) for a, v in zip(GEN_STATE, st)})
+                else:
+                    ctx.error(f"{tag}: the published arrays are not the items of one _init_dva_part(...) call", fn, {a: repr(v) for a, v in zip(GEN_STATE, st)})
+                continue
+            ok = [it[1] for it in items] == [0, 1, 2, 3]
             ctx.check(ok, f"{tag}: _d, _v, _a, _force are the four arrays _init_dva_part returns, in that order", fn,
                       None if ok else {a: repr(v) for a, v in zip(GEN_STATE, st)})
             if not ok:
@@ -1257,7 +1322,14 @@ def r5_typestate(ctx):
             kinds = [(k, e) for k, e in enumerate(ev.events)]
             last_pub = max((k for k, e in kinds if e[0] == "setattr" and e[1] in GEN_STATE), default=-1)
             gcalls = [(k, e) for k, e in kinds if e[0] == "call" and e[1].startswith("self._solve_") and e[1].endswith(("_generator", "_generator_cdforces"))]
-            nexts = [k for k, e in kinds if e[0] == "call" and e[1] == "next"]
+            def primes(e):
+                """next(g) / g.send(None) / g.__next__() on the generator object this call created"""
+                if e[0] != "call" or not e[2] or ((sem.split_call(e[2][0]) if _good(e[2][0]) else None) or ("",))[0] != gname:
+                    return False
+                return (e[1] == "next" and len(e[2]) == 1) or (e[1] == ".__next__" and len(e[2]) == 1) or \
+                    (e[1] == ".send" and len(e[2]) == 2 and symname(e[2][1]) == "None")
+
+            nexts = [k for k, e in kinds if primes(e)]
             okg = len(gcalls) == 1 and gcalls[0][1][1] == gname
             if okg:
                 pos = gcalls[0][1][2]
@@ -1305,7 +1377,9 @@ def r5_typestate(ctx):
             continue
         want = [F.sym(a) for a in GEN_STATE]
         calc = [e for e in ev.events if e[0] == "call" and e[1] == "self._calc_acce_kdof"]
-        ok = len(calc) == 1 and len(calc[0][2]) == 4 and not calc[0][3] and all(_eq(a, b) for a, b in zip(calc[0][2], want))
+        sig = [a.arg for a in ctx.src.func(BASE, "_BaseODE._calc_acce_kdof").args.args[1:]]
+        placed = sem.place(calc[0][2], calc[0][3], sig) if len(calc) == 1 and len(calc[0][2]) <= len(sig) else {}
+        ok = len(calc) == 1 and len(sig) == 4 and set(placed) == set(sig) and all(_eq(placed[a], b) for a, b in zip(sig, want))
         ctx.check(ok, f"finalize (get_force {get_force}): acceleration is recovered from equilibrium with the published d, v, a and the force finally in effect", fn,
                   None if ok else [[repr(x) for x in e[2]] for e in calc])
         dels = {e[1] for e in ev.events if e[0] == "del"}
